@@ -141,3 +141,27 @@ class Interner:
 
     def value(self, uid):
         return self.vals[uid]
+
+
+
+def storage(o):
+    """the storage tuple of a live Vector/Table, found without relying on the attribute's name: `_underlying` when it exists,
+    otherwise the tuple-valued instance attribute (the one as long as the object when there are several); None while the object
+    is still under construction"""
+    d = getattr(o, "__dict__", None)
+    if not isinstance(d, dict):
+        return None
+    t = d.get("_underlying")
+    if isinstance(t, tuple):
+        return t
+    if "_underlying" in d:
+        return None
+    cands = [v for v in d.values() if isinstance(v, tuple)]
+    if len(cands) == 1:
+        return cands[0]
+    try:
+        n = len(o)
+    except Exception:
+        return None
+    cands = [v for v in cands if len(v) == n]
+    return cands[0] if cands else None
